@@ -50,6 +50,24 @@ class verif_mutex {
     std::mutex m;
 };
 }
+namespace std {
+// condition variable with a perturbation point between a false predicate and the actual wait (the caller still holds the
+// lock there): a notifier that changes the state WITHOUT taking the mutex can slip into that window and its wake-up is lost
+class verif_cv {
+  public:
+    template <class L> void wait(L & lock) { cv.wait(lock); }
+    template <class L, class P> void wait(L & lock, P pred) {
+        while (!pred()) {
+            vshim::perturb();
+            cv.wait(lock);
+        }
+    }
+    void notify_one() { cv.notify_one(); }
+    void notify_all() { cv.notify_all(); }
+  private:
+    std::condition_variable_any cv;
+};
+}
 #define mutex verif_mutex
-#define condition_variable condition_variable_any
+#define condition_variable verif_cv
 #endif
